@@ -309,6 +309,10 @@ class RecStub(Party):
 
     async def _handle_rtcp_packet(self, packet):
         self.got.append(("rtcp", type(packet).__name__))
+        hook = getattr(self, "hook", None)
+        if hook is not None and len(self.got) == self.hook_at:
+            self.hook = None
+            hook()  # an application reacting to this packet (e.g. a BYE) by stopping another receiver / sender
 
     def _handle_disconnect(self):
         pass
@@ -379,17 +383,46 @@ async def transport_history(rng, out):
                 data = b""
                 want_calls = collections.Counter()
                 op = ("rtcp",)
-                for _k in range(rng.choice([1, 1, 2, 3])):  # compound packets too
+                n_sub = rng.choice([1, 1, 2, 3])
+                # one party may be unregistered by the handler of another while the compound packet is being dispatched:
+                # what was routed before that moment may still arrive, the sub-packets after it must not
+                inflight = rng.random() < 0.3 and n_sub > 1 and live
+                slack = collections.Counter()
+                for _k in range(n_sub):  # compound packets too
                     kind = rng.choice(["sr", "rr", "bye", "nack", "pli", "remb"])
                     args = (kind, pick(), tuple(pick() for _ in range(rng.randint(0, 3))), tuple(pick() for _ in range(rng.randint(0, 2))),
                             0 if kind == "remb" else pick(), tuple(pick() for _ in range(rng.randint(0, 3))))
-                    for party in model.route_rtcp(*args):
+                    parties = list(model.route_rtcp(*args))
+                    for party in parties:
                         want_calls[party] += 1
+                    if inflight and parties and _k < n_sub - 1:
+                        inflight = False
+                        x = rng.choice(parties)
+                        y = rng.choice(sorted(live, key=repr))
+                        x.hook_at = want_calls[x]
+                        if y in recvs:
+                            x.hook = lambda y=y: t._unregister_rtp_receiver(y)
+                            model.unregister_receiver(y)
+                        else:
+                            x.hook = lambda y=y: t._unregister_rtp_sender(y)
+                            model.unregister_sender(y)
+                        live.discard(y)
+                        if y in parties and y is not x:
+                            slack[y] = 1  # same sub-packet: routed before the unregistration, delivered or not
+                        op += (("unregister", y.name, "inside handler of", x.name),)
+                        out.counters["inflight_unregistrations"] += 1
                     data += bytes(build_rtcp(rtp, *args))
                     op += (args,)
                     out.counters["rtcp_routes_checked"] += 1
                 want_set = set(want_calls)
                 await t._handle_rtcp_data(data)
+                for x in recvs + sends:
+                    x.hook = None
+                for y_, n_ in slack.items():
+                    if len(y_.got) == want_calls[y_] - n_:
+                        want_calls[y_] -= n_
+                        if not want_calls[y_]:
+                            want_set.discard(y_)
             ops.append(op)
             got_set = {x for x in recvs + sends if x.got}
             calls_ok = all(len(x.got) == (want_calls[x] if op[0] == "rtcp" else 1) for x in got_set)
@@ -398,7 +431,7 @@ async def transport_history(rng, out):
                          f"({[len(x.got) for x in got_set]} calls), specification says {sorted(map(repr, want_set))}",
                          {"kind": "transport", "ops": [repr(o)[:80] for o in ops[-12:]]})
                 return
-            if any(x not in live for x in got_set):
+            if any(x not in live and not (op[0] == "rtcp" and any(isinstance(o, tuple) and o and o[0] == "unregister" and o[1] == x.name for o in op)) for x in got_set):
                 out.fail("routed-to-unregistered", f"{op!r}: delivered to an unregistered party", {"kind": "transport"})
                 return
     out.counters["transport_histories"] += 1
